@@ -10,7 +10,7 @@ import math
 
 import numpy as np
 
-from ..core import blit, err_class, listlit, natlist, natlit, zlist, zlit
+from ..core import blit, err_class, listlit, natlist, natlit, relayout, zlist, zlit
 
 IMPORTS = "From V Require Import Model.Label Harness.Run Harness.LabelCheck."
 NAN = float("nan")
@@ -172,7 +172,7 @@ def run(ctx):
             n = len(vals)
             if name != "list" and n >= 2 and n % 2 == 0:
                 for shape in ((n // 2, 2), (2, n // 2), (1, n), (n, 1)):
-                    a2 = arr.reshape(shape)
+                    a2 = relayout(arr.reshape(shape), (len(vals) + shape[0]) % 4)
                     try:
                         u2 = lab.is_unlabeled(a2, missing_label=s)
                         l2 = lab.is_labeled(a2, missing_label=s)
